@@ -34,7 +34,11 @@ def uncps(a):
 
 
 def wkey(k):
-  return k if isinstance(k, int) else cps(k)
+  if isinstance(k, int):
+    return k
+  if isinstance(k, str):
+    return cps(k)
+  return cps('<object %s>' % type(k).__name__)     # a key the API must never hand out
 
 
 def unwkey(k):
